@@ -556,7 +556,7 @@ def run(ctx):
             raise core.MachineryError('the wide header set should be rejected (ChainAgrees)\n' + wide.out[-1500:])
         ctx.coverage['headers_where_chain_order_matters'] = sorted(set(chain))
         # (S->C) the sheets of the configuration with TLC's records; the quick tier replays every
-        # sheet of the five-column layouts and a seeded 45 % sample of the others (every layout
+        # sheet of the five-column layouts and a seeded 38 % sample of the others (every layout
         # keeps several emptiness patterns); the thorough tier replays all
         ctx.coverage['tlc_sheets'] = len(tcases)
         rnd = random.Random(ctx.seed)
@@ -564,13 +564,13 @@ def run(ctx):
         tcases.sort(key=lambda c: json.dumps([c['headers'], c['rows']]))
         for k, c in enumerate(tcases):
             mixed = 7 in c['lay'] and any(k in c['lay'] for k in (4, 5, 6))    # formula + element.X
-            if ctx.quick and c['how'] == 'all' and not mixed and rnd.random() < 0.55:
+            if ctx.quick and c['how'] == 'all' and not mixed and rnd.random() < 0.62:
                 continue
             cases.append({'cid': 't%d' % k, 'kind': 'tlc', 'headers': c['headers'], 'rows': c['rows'],
                           'expected': c['expected'], 'comment': k % 2 == 0, 'skip_empty_list': k % 4 == 1})
         for k in range(ctx.pick(600, 6000)):
             cases.append(random_case(rnd, 'r%d' % k, big=False))
-        for k in range(ctx.pick(80, 1500)):
+        for k in range(ctx.pick(60, 1500)):
             cases.append(random_case(rnd, 'b%d' % k, big=True))
         rc = repo_cases()
         ctx.coverage['repo_sheets'] = len(rc)
